@@ -20,13 +20,14 @@ import (
 )
 
 type Op struct {
-	A      string   `json:"a"`
-	ID     string   `json:"id"`
-	Hex    string   `json:"hex"`
-	Len    int      `json:"len"`
-	First  int      `json:"first"`
-	Events []string `json:"events"`
-	WF     bool     `json:"wf"`
+	A      string      `json:"a"`
+	ID     string      `json:"id"`
+	Hex    string      `json:"hex"`
+	Len    int         `json:"len"`
+	First  int         `json:"first"`
+	Events []string    `json:"events"`
+	Sparse bool        `json:"sparse"` // long stream: cut only at event boundaries and their neighbours
+	WF     bool        `json:"wf"`
 	Abs    interface{} `json:"abs,omitempty"`
 }
 
@@ -183,7 +184,16 @@ func main() {
 			fo := guard(decodeMany(full))
 			fl := lines(fo.out)
 			emit(map[string]interface{}{"a": "Full", "len": len(full), "bounds": bounds, "outcome": fo.kind, "lines": len(fl), "validjson": allValid(fo.out)})
+			near := map[int]bool{}
+			for _, b := range bounds {
+				for d := -2; d <= 2; d++ {
+					near[b+d] = true
+				}
+			}
 			for k := 0; k <= len(full); k++ {
+				if op.Sparse && !near[k] && k%97 != 0 {
+					continue
+				}
 				o := guard(decodeMany(full[:k]))
 				ls := lines(o.out)
 				same := len(ls) <= len(fl)
